@@ -106,11 +106,18 @@ func VerifC12_DecoratorFaults() {
 		benign = kind == env.FaultAlreadyExists
 	}
 	requeued, forgot := dc.Queue.Count("add-rate-limited"), dc.Queue.Count("forget")
+	// (update of a / create of c: their order follows Go's map iteration order, so
+	// cover markers - compared between executor and native run - skip them)
+	orderDependent := hit.Resource == "configmaps" && hit.Verb != "delete"
 	if benign {
-		rt.Cover("benign-fault-tolerated")
+		if !orderDependent {
+			rt.Cover("benign-fault-tolerated")
+		}
 		rt.Assert(requeued == 0 && forgot == 1, "decorator/benign/"+hit.Verb+"-"+hit.Resource+"/reported-as-error")
 	} else {
-		rt.Cover("fault-requeued")
+		if !orderDependent {
+			rt.Cover("fault-requeued")
+		}
 		rt.Assert(requeued == 1 && forgot == 0, "decorator/non-benign/"+hit.Verb+"-"+hit.Resource+"/not-requeued-with-backoff")
 	}
 	// a failure on one attachment does not stop the others
